@@ -176,6 +176,11 @@ func (t *ProcessorTask) markBatchRecords(b *Batch, from int, records []sdk.Proce
 		errs := make([]error, len(records))
 		for i, rec := range records {
 			errs[i] = rec.(sdk.ErrorRecord).Error
+			if errs[i] == nil {
+				// A nacked record needs a reason: it is stored in the record
+				// status and written to the DLQ.
+				errs[i] = cerrors.New("processor returned an error record without an error")
+			}
 		}
 		b.Nack(from, errs...)
 	case sdk.MultiRecord:
